@@ -1779,6 +1779,13 @@ impl Checker {
         } else {
             vec![]
         };
+        // C07: a move inside one model must not leave a file with content its own version does not permit (a move between files of
+        // different versions is to be refused): same measure as for copies
+        let move_compat_pre: Vec<(ArxmlFile, usize)> = if self.on("C07") && verb == "move" {
+            dest.as_ref().and_then(|p| p.model().ok()).map(|m| m.files().map(|f| { let n = f.check_version_compatibility(f.version()).0.len(); (f, n) }).collect()).unwrap_or_default()
+        } else {
+            vec![]
+        };
         let mut pair_pre: Vec<(usize, Side, String)> = vec![];
         if c13 && !matches!(verb, "reset" | "newmodel" | "mkfile") {
             for (pi, (src, cp)) in self.pairs.iter().enumerate() {
@@ -1957,6 +1964,25 @@ impl Checker {
             }
             if ans == "ok" && f.version() != *v {
                 out.push(Failure::new("C17", "setver-version", format!("{where_} answers ok but the file reports {:?}", f.version())));
+            }
+        }
+        if ok && !move_compat_pre.is_empty() {
+            *self.counts.entry("oracle.c07_move_validity_checks").or_insert(0) += move_compat_pre.len() as u64;
+            for (f, n) in &move_compat_pre {
+                let (errs, _) = f.check_version_compatibility(f.version());
+                if *n == 0 && !errs.is_empty() {
+                    let what = match errs.iter().last() {
+                        Some(CompatibilityError::IncompatibleAttribute { element, attribute, .. }) => format!("attribute {attribute:?} of {}", element.xml_path()),
+                        Some(CompatibilityError::IncompatibleAttributeValue { element, attribute, attribute_value, .. }) => format!("value {attribute_value} of attribute {attribute:?} of {}", element.xml_path()),
+                        Some(CompatibilityError::IncompatibleElement { element, .. }) => format!("element {}", element.xml_path()),
+                        None => String::new(),
+                    };
+                    let msg = format!("`{req}`: after the move a file holds content its own version {:?} does not permit ({} incompatibilities, none before); last: {what}", f.version(), errs.len());
+                    if !self.alien_type {
+                        out.push(Failure::new("C07", "move-invalid-in-destination", msg));
+                    }
+                    break;
+                }
             }
         }
         if c13 {
